@@ -24,6 +24,15 @@ struct Fmt {
     net_gbp: String,
     loss_gbp: String,
     gain_gbp: String,
+    proceeds_gbp: String,
+    exempt_gbp: String,
+    taxable_gbp: String,
+    d1_gross_gbp: String,
+    d1_net_gbp: String,
+    fee_gbp: String,
+    cost_gbp: String,
+    hold_k: i64,
+    hold_avg_gbp: String,
 }
 
 #[derive(Debug, Clone, Deserialize)]
@@ -240,7 +249,7 @@ fn main() {
         let years: Vec<TaxYearSummary> = batch.iter().enumerate().filter_map(|(i, v)| year_for(v, 1900 + ((bi * BATCH + i) % 200) as u16)).collect();
         let report = TaxReport {
             tax_years: years.clone(),
-            holdings: vec![Section104Holding { ticker: "AAA".into(), quantity: Decimal::from(8), total_cost: milli(batch[0].k.abs() + 8000) }],
+            holdings: vec![Section104Holding { ticker: "AAA".into(), quantity: Decimal::from(8), total_cost: milli(batch[0].hold_k) }],
             transactions: vec![],
         };
         let desc = |v: &Fmt| format!("value {} (thousandths of a pound); expected pence {} i.e. {}", v.k, v.pence, pound(&v.gbp));
@@ -290,6 +299,26 @@ fn main() {
             if cells.get(2).copied() != Some(want_net.as_str()) { bad.push(format!("text summary net gain {:?}, expected {want_net}", cells.get(2))); }
             if cells.get(3).copied() != Some(want_gain.as_str()) { bad.push(format!("text summary total gain {:?}, expected {want_gain}", cells.get(3))); }
             if cells.get(4).copied() != Some(want_loss.as_str()) { bad.push(format!("text summary total loss {:?}, expected {want_loss}", cells.get(4))); }
+            for (o, name, want) in [(5usize, "proceeds", pound(&v.proceeds_gbp)), (6, "exemption", pound(&v.exempt_gbp)), (7, "taxable gain", pound(&v.taxable_gbp))] {
+                if cells.get(o).copied() != Some(want.as_str()) { bad.push(format!("text summary {name} {:?}, expected {want}", cells.get(o))); }
+            }
+            // the first disposal's details: gross proceeds, net proceeds line, cost
+            let sect: Vec<&str> = plain_text.lines().skip_while(|l| *l != format!("## {label}")).skip(1).take_while(|l| !l.starts_with("## ") && !l.starts_with("# ")).collect();
+            let first: Vec<&str> = sect.iter().skip_while(|l| !l.starts_with("1) ")).take_while(|l| !l.starts_with("2) ")).copied().collect();
+            let gp = first.iter().find(|l| l.trim_start().starts_with("Gross Proceeds:")).copied().unwrap_or("");
+            if !gp.ends_with(&format!("= {}", pound(&v.d1_gross_gbp))) { bad.push(format!("text gross proceeds line {gp:?}, expected ... = {}", pound(&v.d1_gross_gbp))); }
+            let np = first.iter().find(|l| l.trim_start().starts_with("Net Proceeds:")).map(|l| l.trim()).unwrap_or("");
+            let want_np = vec![pound(&v.d1_gross_gbp), pound(&v.fee_gbp), pound(&v.d1_net_gbp)];
+            if money_tokens(np) != want_np { bad.push(format!("text net proceeds line {np:?}, expected the figures {want_np:?}")); }
+            let cl = first.iter().find(|l| l.trim_start().starts_with("Cost:")).map(|l| l.trim()).unwrap_or("");
+            if cl != format!("Cost: {}", pound(&v.cost_gbp)) { bad.push(format!("text cost line {cl:?}, expected Cost: {}", pound(&v.cost_gbp))); }
+            if i == 0 {
+                // the text report writes the average rounded to pence without trailing zeros ("£1" for 1.00): compare the value
+                let line = plain_text.lines().find(|l| l.starts_with("AAA: 8 units at ")).unwrap_or("");
+                let val = |t: &str| Decimal::from_str(&t.replace(['£', ','], "")).ok();
+                let got = money_tokens(line).first().and_then(|t| val(t));
+                if got.is_none() || got != val(&pound(&v.hold_avg_gbp)) { bad.push(format!("text holdings line {line:?}, expected an average cost of {}", pound(&v.hold_avg_gbp))); }
+            }
             let want_result = format!("Result: {}", pound(&v.gbp));
             let head = format!("{} AAA on 01/06/{} - {} {}", 4, y.period.start_year(), if v.k >= 0 { "GAIN" } else { "LOSS" }, pound(&v.gbp_abs));
             if !plain_text.contains(&want_result) { bad.push(format!("text report lacks {want_result:?}")); }
@@ -325,6 +354,9 @@ fn main() {
                         if cell(2) != want_net { bad.push(format!("PDF summary net gain {:?}, expected {want_net}", cell(2))); }
                         if cell(3) != want_gain { bad.push(format!("PDF summary total gain {:?}, expected {want_gain}", cell(3))); }
                         if cell(4) != want_loss { bad.push(format!("PDF summary total loss {:?}, expected {want_loss}", cell(4))); }
+                        for (o, name, want) in [(5usize, "proceeds", pound(&v.proceeds_gbp)), (6, "exemption", pound(&v.exempt_gbp)), (7, "taxable gain", pound(&v.taxable_gbp))] {
+                            if cell(o) != want { bad.push(format!("PDF summary {name} {:?}, expected {want}", cell(o))); }
+                        }
                     }
                 }
                 // details: first disposal under "Tax Year <label>"
@@ -336,9 +368,22 @@ fn main() {
                         if sect.iter().find(|r| r.starts_with("GAIN ") || r.starts_with("LOSS ")).copied() != Some(head.as_str()) {
                             bad.push(format!("PDF disposal heading {:?}, expected {head:?}", sect.iter().find(|r| r.starts_with("GAIN ") || r.starts_with("LOSS "))));
                         }
+                        let after = |lab: &str| sect.iter().position(|r| *r == lab).and_then(|i| sect.get(i + 1)).copied().unwrap_or("");
+                        if !after("Gross Proceeds:").ends_with(&format!("= {}", pound(&v.d1_gross_gbp))) { bad.push(format!("PDF gross proceeds {:?}, expected ... = {}", after("Gross Proceeds:"), pound(&v.d1_gross_gbp))); }
+                        let want_np = vec![pound(&v.d1_gross_gbp), pound(&v.fee_gbp), pound(&v.d1_net_gbp)];
+                        if money_tokens(after("Net Proceeds:")) != want_np { bad.push(format!("PDF net proceeds {:?}, expected the figures {want_np:?}", after("Net Proceeds:"))); }
+                        if after("Cost:") != pound(&v.cost_gbp) { bad.push(format!("PDF cost {:?}, expected {}", after("Cost:"), pound(&v.cost_gbp))); }
                         let res = sect.iter().position(|r| *r == "Result:").and_then(|i| sect.get(i + 1)).copied();
                         if res != Some(pound(&v.gbp).as_str()) { bad.push(format!("PDF result {:?}, expected {}", res, pound(&v.gbp))); }
                     }
+                }
+            }
+            if i == 0 {
+                if let Some(pt) = &pdf_text {
+                    let runs: Vec<&str> = pt.lines().map(|l| l.trim()).collect();
+                    let h = runs.iter().position(|r| *r == "Holdings").map(|p| runs[p..].iter().take(12).copied().collect::<Vec<_>>()).unwrap_or_default();
+                    let want = [ "AAA", "8", &pound(&v.hold_avg_gbp) ];
+                    if !h.windows(3).any(|w| w == want) { bad.push(format!("PDF holdings table {:?}, expected the row {:?}", h, want)); }
                 }
             }
             if !bad.is_empty() {
